@@ -381,11 +381,19 @@ func (e *Engine) execNext(fc *fnCtx, b *ssa.BasicBlock, st *State, x *ssa.Next) 
 	okv := e.sc.declareConst("nextok", "Bool")
 	k := e.freshVal("mapkey", m.Key())
 	val, dom := e.mapLoad(st, m, coll.T, k.T)
-	e.sc.assert(implies(and(st.Reach, okv), and(dom, "(not (= "+coll.T+" 0))")))
+	visited := st.Cells[rng]
+	ks := e.sortOf(m.Key())
+	if visited.S != "(Array "+ks+" Bool)" {
+		visited = Val{T: e.sc.declareConst("visited", "(Array "+ks+" Bool)"), S: "(Array " + ks + " Bool)"}
+	}
+	// each step yields a present key that was not visited before; the iteration ends only when every present key was visited
+	e.sc.assert(implies(and(st.Reach, okv), and(dom, "(not (= "+coll.T+" 0))", not(sel(visited.T, k.T)))))
+	_, _, dh, ds := e.mapHeapNames(m)
+	domArr := sel(e.heapIn(st, dh, ds), coll.T)
+	e.sc.assert(implies(and(st.Reach, not(okv)), "(forall ((kk "+ks+")) (! (=> (and (not (= "+coll.T+" 0)) (select "+domArr+" kk)) (select "+visited.T+" kk)) :pattern ((select "+visited.T+" kk))))"))
 	v := Val{T: e.sc.define("mapval", e.sortOf(m.Elem()), val), S: e.sortOf(m.Elem()), GoT: m.Elem()}
-	e.note("map iteration: arbitrary present key per step (order and exactly-once not modelled)")
-	// mark the iterator as modified so enclosing loops havoc nothing else
-	st.Cells[rng] = Val{T: e.sc.declareConst("mapiter", "Int"), S: "Int"}
+	e.note("map iteration: every present key exactly once in arbitrary order (ghost visited set); the ranged map's key set is assumed not to change during the loop")
+	st.Cells[rng] = Val{T: e.sc.define("visited", visited.S, ite(okv, store(visited.T, k.T, "true"), visited.T)), S: visited.S}
 	fc.regs[x] = Val{S: "Tuple", Tuple: []Val{{T: okv, S: "Bool"}, k, v}, GoT: x.Type()}
 }
 
